@@ -34,6 +34,7 @@ func ints(n int) []channel.Bal {
 }
 
 type world struct {
+	peer   *simwallet.Account
 	acc    *simwallet.Account
 	accs   map[wallet.BackendID]wallet.Account
 	params *channel.Params
@@ -53,6 +54,7 @@ func appOf(kind int, def *simwallet.Address) channel.App {
 func mkWorld() *world {
 	w := &world{acc: simwallet.NewRandomAccount(cryptorand.Reader), app: rt.Choice(3)}
 	peer := simwallet.NewRandomAccount(cryptorand.Reader)
+	w.peer = peer
 	w.accs = map[wallet.BackendID]wallet.Account{channel.TestBackendID: w.acc}
 	parts := []map[wallet.BackendID]wallet.Address{
 		{channel.TestBackendID: w.acc.Address()}, {channel.TestBackendID: peer.Address()},
@@ -313,6 +315,52 @@ func VerifC02CheckUpdate() {
 	rt.Reach("c02.check")
 	rt.Assert("c02.check.unsigned-refused", err != nil)
 	rt.Assert("c02.check.readonly", m.Phase() == channel.Acting && m.StagingState() == nil && m.State() == cur)
+}
+
+// VerifC02CheckThenUpdate: CheckUpdate with the peer's valid signature accepts
+// only reference-valid successors, and the verdict of one call does not carry
+// over to the next: after CheckUpdate the caller changes the candidate (in
+// place) or the actor and calls Update, which must judge what it is given.
+func VerifC02CheckThenUpdate() {
+	bounded, gen.K, gen.Exact = true, 1, true
+	w := mkWorld()
+	cur := curState(w)
+	to := candidate(w, cur, 0)
+	actor := channel.Index(rt.NondetU16())
+	m := machineAt(w, channel.Acting, cur)
+	sig := make([]byte, 64)
+	signed := false
+	if to.Valid() == nil && rt.NondetBool() {
+		s, err := channel.Sign(w.peer, to, channel.TestBackendID)
+		rt.Assume(err == nil)
+		sig, signed = s, true
+	}
+	var err1 error
+	panicked := rt.Try(func() { err1 = m.CheckUpdate(to, actor, sig, 1) })
+	rt.Assert("c02.seq.check-nopanic", !panicked)
+	if err1 == nil {
+		rt.Reach("c02.seq.check-accepted")
+		rt.Assert("c02.seq.check-sound", signed && refSuccessor(w, cur, to, actor))
+	}
+	rt.Assert("c02.seq.check-readonly", m.Phase() == channel.Acting && m.StagingState() == nil && m.State() == cur)
+	actor2 := actor
+	switch rt.Choice(4) {
+	case 0:
+	case 1: // funds edited in place
+		to.Balances[0][0] = new(big.Int).Add(to.Balances[0][0], big.NewInt(1+int64(rt.NondetU8())))
+	case 2:
+		to.Version += 1 + uint64(rt.NondetU8())
+	case 3:
+		actor2 = channel.Index(rt.NondetU16())
+	}
+	var err2 error
+	panicked = rt.Try(func() { err2 = m.Update(to, actor2) })
+	rt.Assert("c02.seq.update-nopanic", !panicked)
+	rt.Reach("c02.seq")
+	if err2 == nil {
+		rt.Reach("c02.seq.update-accepted")
+		rt.Assert("c02.seq.update-sound-after-check", refSuccessor(w, cur, to, actor2))
+	}
 }
 
 // VerifC02Init: Init accepts only well-formed allocations with one balance
